@@ -81,7 +81,12 @@ def _items(ann):
 
 
 def _tla_items(items):
-    return '<< ' + ', '.join('[t |-> "%s", s |-> << %s >>]' % (t, ', '.join(str(ord(c)) for c in s)) for t, s in items) + ' >>'
+    out = []
+    for n, (t, s) in enumerate(items):
+        # a keyword that directly follows ':' is a pseudo-class NAME (an identifier token: escapes allowed)
+        esc = 'TRUE' if (t == 'kw' and n > 0 and items[n - 1][0] == 'lit' and items[n - 1][1].endswith(':')) else 'FALSE'
+        out.append('[t |-> "%s", s |-> << %s >>, esc |-> %s]' % (t, ', '.join(str(ord(c)) for c in s), esc))
+    return '<< ' + ', '.join(out) + ' >>'
 
 
 def _init(H):
